@@ -112,6 +112,40 @@ static bool csCall(const std::string &name, Toks &t, Model &m, CSState &C, Vecto
     VectorNd QD = VectorNd::Zero(nv);
     CalcAssemblyQDot(m, q, qd, cs, QD, wts);
     o.vec(QD);
+  } else if (name == "IK1") {
+    // step_tol lambda max_iter npts (body point target)*
+    double step_tol = t.rat(), lam = t.rat(); unsigned maxit = t.nat(); unsigned np = t.nat();
+    std::vector<unsigned int> ids; std::vector<Vector3d> pts, tgts;
+    for (unsigned i = 0; i < np; i++) { ids.push_back(t.nat()); pts.push_back(t.v3()); tgts.push_back(t.v3()); }
+    VectorNd Q = VectorNd::Zero(m.q_size);
+    bool ok = InverseKinematics(m, q, ids, pts, tgts, Q, step_tol, lam, maxit);
+    o.str(ok ? "1" : "0"); o.vec(Q);
+  } else if (name == "IK2") {
+    // lambda max_steps step_tol constraint_tol ncons (kind body point target R weight)*
+    InverseKinematicsConstraintSet ik;
+    ik.lambda = t.rat(); ik.max_steps = t.nat(); ik.step_tol = t.rat(); ik.constraint_tol = t.rat();
+    unsigned ncons = t.nat();
+    for (unsigned i = 0; i < ncons; i++) {
+      std::string kind = t.next(); unsigned body = t.nat(); Vector3d pt = t.v3(); Vector3d tg = t.v3();
+      Matrix3d R = t.m3(); double wgt = t.rat();
+      if (kind == "p") ik.AddPointConstraint(body, pt, tg, wgt);
+      else if (kind == "xy") ik.AddPointConstraintXY(body, pt, tg, wgt);
+      else if (kind == "z") ik.AddPointConstraintZ(body, pt, tg, wgt);
+      else if (kind == "o") ik.AddOrientationConstraint(body, R, wgt);
+      else ik.AddFullConstraint(body, pt, tg, R, wgt);
+    }
+    VectorNd Q = VectorNd::Zero(m.q_size);
+    bool ok = InverseKinematics(m, q, ik, Q);
+    unsigned steps = ik.num_steps; double en = ik.error_norm, dq = ik.delta_q_norm;
+    // iteration-cap probe: one step fewer must not already have met the documented criteria
+    int ok2 = -1; double en2 = 0., dq2 = 0.;
+    if (ok && steps > 0) {
+      ik.max_steps = steps;
+      VectorNd Q2 = VectorNd::Zero(m.q_size);
+      ok2 = InverseKinematics(m, q, ik, Q2) ? 1 : 0;
+      en2 = ik.error_norm; dq2 = ik.delta_q_norm;
+    }
+    o.str(ok ? "1" : "0"); o.num(steps); o.num(en); o.num(dq); o.num(ok2); o.num(en2); o.num(dq2); o.vec(Q);
   } else return false;
   return true;
 }
